@@ -595,7 +595,7 @@ Section BtcP.
     intros H. induction ins as [|[[ptx pvout] isnull] rest IH]; intros gas_left tv tvin Hne Hle; [contradiction|].
     cbn [sat_vins]. destruct isnull; [discriminate|]. destruct (gas_left <? G); [discriminate|].
     destruct (get_tx ptx) as [p|]; [|discriminate].
-    destruct (nth_error (tx_outs p) (N.to_nat pvout)) as [[cv sc]|]; [|discriminate].
+    destruct (nth_N (tx_outs p) pvout) as [[cv sc]|]; [|discriminate].
     destruct (sat_add_cases fx m tvin cv H) as [E|(s & E & Hs)]; rewrite E; [discriminate|].
     destruct ((tv <=? s) || match rest with [] => true | _ :: _ => false end) eqn:Eb.
     - destruct (s <? tv) eqn:Es; [discriminate|]. nb.
@@ -637,8 +637,9 @@ Section BtcP2.
     destruct (blockh <? bhgt); [discriminate|]. destruct (is_coinbase t); [discriminate|].
     destruct (len (tx_ins t) =? 0) eqn:E0; [discriminate|].
     destruct (len (tx_outs t) <? vout_u mod TWO64); [discriminate|].
-    destruct (nth_error (tx_outs t) (N.to_nat (vout_u mod TWO64))) as [[value sc]|] eqn:En; [|discriminate].
+    destruct (nth_N (tx_outs t) (vout_u mod TWO64)) as [[value sc]|] eqn:En; [|discriminate].
     destruct (value <? sat_u mod TWO64); [discriminate|].
+    unfold nth_N in En. destruct (len (tx_outs t) <=? vout_u mod TWO64); [discriminate|].
     apply nth_error_some_lt in En.
     destruct (sum_first_no_panic get_tx_bh get_tx height_of fx m H (N.to_nat (vout_u mod TWO64)) (tx_outs t) 0) as [E|[s E]]; [lia| |];
       rewrite E; [discriminate|].
@@ -925,3 +926,19 @@ Section HandlersP.
   Lemma wedged_read {A} (e : estate S) (f : S -> res A) : es_slot e = Taken -> read_section e f = Panic.
   Proof. intros H. unfold read_section. rewrite H. reflexivity. Qed.
 End HandlersP.
+
+(* ---------------------------------------------------------------------------------- *)
+(* select_bytes (Model/Payload.v)                                                     *)
+(* ---------------------------------------------------------------------------------- *)
+
+Theorem select_bytes_no_panic zstd_d zstd_frame_size LIMIT v raw b64 :
+  v_empty_panics v = false -> select_bytes zstd_d zstd_frame_size LIMIT v raw b64 <> Panic.
+Proof.
+  intros Hv. unfold select_bytes, b64_value. destruct raw as [r|], b64 as [[s|]|]; try discriminate.
+  apply (decode_no_panic zstd_d zstd_frame_size LIMIT v s Hv).
+Qed.
+
+(* F7: base64_data = "" *)
+Theorem select_bytes_as_written_refuted zstd_d zstd_frame_size LIMIT :
+  select_bytes zstd_d zstd_frame_size LIMIT AS_WRITTEN None (Some (Some [])) = Panic.
+Proof. reflexivity. Qed.
